@@ -9,7 +9,7 @@ git apply "$S/patch.diff" || { echo "patch does not apply"; exit 2; }
 echo "== demo with change:"; (cd /repo && PYTHONPATH=/repo timeout 600 /venv/bin/python "$S/demo.py" 2>&1 | grep -v WARNING | tail -4); echo "demo exit=${PIPESTATUS[0]}"
 for c in "$@"; do
   echo "== check $c (seed=${VERIF_SEED:-0}):"
-  (cd /verif && ./check "$c" --tier "${TIER:-quick}" 2>&1 | grep -a "^VIOLATION\|family=\|tier=\|INCONCL" | cut -c1-260 | head -12)
+  (cd /verif && ./check "$c" --tier "${TIER:-quick}" ${ONLY:+--only "$ONLY"} 2>&1 | grep -a "^VIOLATION\|family=\|tier=\|INCONCL" | cut -c1-260 | head -12)
 done
 git -C /repo checkout -- . 
 echo "== demo without change:"; (cd /repo && PYTHONPATH=/repo timeout 600 /venv/bin/python "$S/demo.py" 2>&1 | grep -v WARNING | tail -2)
